@@ -137,10 +137,11 @@ def sameDeps (gy gg : Deps) : Bool :=
 
 /-- **Domain of the equality theorem**: one variable per specification; the dependencies
     `getVarDependencies` collects are, as sets, those of the specification (nothing reached only
-    through a function or method body, no self reference, no false dependency); no specification
-    is overtaken in a pass. -/
+    through a function or method body, no self reference, no false dependency). (Before the repair
+    of F15 the domain also required that no specification be overtaken inside a pass; the loop now
+    restarts after every append and the condition is gone.) -/
 def dom (p : Pkg) : Bool :=
-  !gtaRejects p && allSingle p && sameDeps (collectDepsY p) (goDeps p) && noOvertake (collectDepsY p)
+  !gtaRejects p && allSingle p && sameDeps (collectDepsY p) (goDeps p)
 
 /-- the specification's dependency graph projected on specifications (for labelling only) -/
 def goSpecDeps (p : Pkg) : Deps :=
@@ -177,7 +178,6 @@ def reason (p : Pkg) : String :=
   else if !missing.isEmpty then "dep-through-function"
   else if extra.contains "dup-blank" then "dup-blank"
   else if !extra.isEmpty then "false-dep"
-  else if !noOvertake gy then "overtake"
   else if !allSingle p then "multi-name-decl"
   else "unclassified"
 
